@@ -229,9 +229,13 @@ def main():
         return out
 
     def idx_of(b, node):
-        for i, n in enumerate(b):
+        "Position among the sentence / access nodes (limit-flag nodes are inert and not part of the certificate)."
+        i = 0
+        for n in b:
             if n is node:
                 return i
+            if 'flag' not in n:
+                i += 1
         return None
 
     def run(job):
@@ -286,11 +290,6 @@ def main():
                 b = target.branch
                 cur = cursor.get(b)
                 rules_used.append(rule.name)
-                if cur == 'CUT':
-                    # below a limit flag: not part of any verdict
-                    for x in list(tab)[nb:]:
-                        cursor[x] = 'CUT'
-                    continue
                 if cur is None or not expressible:
                     expressible = False
                     why.append('unknown-branch')
@@ -306,10 +305,12 @@ def main():
                 newbs = list(tab)[nb:]
                 groups_raw = [list(b)[L:]] + [list(x)[L:] for x in newbs]
                 if target.get('flag') or any('flag' in n for g in groups_raw for n in g):
-                    # a limit flag: the branch is cut short; nothing below it is a verdict
-                    cur['kind'] = 'cut'
-                    for x in [b] + newbs:
-                        cursor[x] = 'CUT'
+                    # a limit flag (MaxWorlds / MaxConstants quit flag): an inert marker node.  The branch may
+                    # still be extended and closed by other rules, so the certificate simply goes on; a leaf
+                    # that stays open under a flag is 'cut' (no verdict is read off it).
+                    if len(groups_raw) != 1 or not all('flag' in n for n in groups_raw[0]):
+                        expressible = False
+                        why.append('flag-with-other-nodes')
                     continue
                 groups = [[coq_node(n) for n in g] for g in groups_raw]
                 node = target.get('node')
@@ -361,6 +362,12 @@ def main():
                 cursor[b] = children[0]
                 for c, x in zip(children[1:], newbs):
                     cursor[x] = c
+
+            for br in tab:
+                leaf = cursor.get(br)
+                if isinstance(leaf, dict) and leaf['kind'] is None and any(
+                        'flag' in n and n.get('flag') != 'closure' for n in br):
+                    leaf['kind'] = 'cut'
 
             def close_leaves(t):
                 if t['kind'] is None:
